@@ -241,7 +241,7 @@ def do_check(prop, mod, tier, seed, work, only=None):
             continue
         jobs = s["jobs"]
         for j in jobs:
-            j.setdefault("merge", True)
+            j.setdefault("merge", os.environ.get("VERIF_NOMERGE", "") == "")
             j.setdefault("pkg", s["pkg"])
             j.setdefault("timeout_s", s.get("job_timeout_s", 600 if tier == "quick" else 3000))
             j.setdefault("nsamples", 4 if tier == "quick" else 8)
